@@ -56,6 +56,11 @@ func init() {
 			Why: "a token type is supported exactly when it is one of the four listed types"},
 		{ID: "E7.te.issupported.only", Fn: "oidc.TokenType.IsSupported", P: []string{"t"}, Kind: "ret fail", Req: []string{"notmember($t, oidc.AllTokenTypes)"}},
 	}
+	// C08 states the same clause ("token exchange accepts a subject or actor token only for a token the provider actually
+	// issued ..."): the proofs of these two guarantees are part of its verdict too
+	for _, fn := range []string{"op.GetTokenIDAndSubjectFromToken", "op.CreateTokenExchangeRequest"} {
+		guarAlso[fn] = append(guarAlso[fn], "C08")
+	}
 	register(&PropSpec{
 		ID: "C15",
 		Explanation: "Decides, for all paths of both routers: a token-exchange request object is created only after the subject token (and the actor token, if given) was accepted by GetTokenIDAndSubjectFromToken for its declared type (access token resolved, refresh token found in storage, ID token verified, or the storage's custom verifier succeeded), the storage validated and stored the request, and both sibling front ends checked presence and support of the declared token types; the request carries the resolved subject/actor, the client's id and the requested type; CreateTokenExchangeResponse returns a success document only with a token freshly issued by CreateAccessToken / CreateIDToken for the declared requested type (default case returns an error); AllTokenTypes is the four RFC 8693 constants (E7). Does not decide liveness of the presented tokens nor the storage's policy.",
